@@ -264,6 +264,9 @@ def run(ctx):
         ctx.floor("dicts with constant keys in the JSON-schema emitters/parsers", n, 4)
 
     ctx.section(_sec_stale)
+    from . import c10
+
+    ctx.section(c10.state_slice, ctx, "C06.state", ["cdd.json_schema.emit.json_schema", "cdd.json_schema.parse.json_schema"], 4)
 
 
 
